@@ -473,6 +473,10 @@ func genE2ERefs(r *rng, objs []gObj) []string {
 	for j := 0; j < nr; j++ {
 		p := refPrefixes[r.n(len(refPrefixes))]
 		name := p + []string{"main", "dev", "v1", "x", "feature/a", "zeta", "a{b", "main"}[r.n(8)]
+		if r.coin(1, 60) {
+			// a reference name of about 3 KiB (many long components): `for-each-ref` lines and descriptions of any length
+			name = p + strings.Repeat(strings.Repeat("w", 180+r.n(40))+"/", 12+r.n(4)) + "tip"
+		}
 		if used[name] || used[name+"/"] {
 			continue
 		}
